@@ -187,15 +187,16 @@ def firstMentionIdx (tr : List Ev) (d : Name) : Option Nat := tr.findIdx? (Ev.me
 def runPending (inp : RunInput) (nTasks : Nat) (pre : List Ev) (p : Name) : Bool :=
   pre.contains (Ev.getStatus p) && !(pre.any (Ev.isTerminalOf p)) && ranFirst inp nTasks pre p
 
-/-- `d` may be touched: it is selected, or a (static or delivered) task_dep / calc_dep of a justified task, or a
+/-- `d` may be touched: it is selected, or a (static or delivered — `RunMon.resAt`: by an executed / up-to-date calc
+    task, or by one whose execution failed after it returned values) task_dep / calc_dep of a justified task, or a
     setup-task of a justified task that was `runPending` when `d` was first touched (a setup-task that is never
     reported itself — the run stopped while its own dependencies were processed — must find its parent still
     `runPending` at the end).  One closure round. -/
 def lazyOnce (inp : RunInput) (nTasks : Nat) (tr : List Ev) (cl : List Name) : List Name :=
   cl.foldl (fun acc t =>
-    addNew acc (inp.taskDep t ++ calcsAt inp tr nTasks (inp.calcDep t) ++
-      (((calcsAt inp tr nTasks (inp.calcDep t)).filter (finishedIn tr)).flatMap fun c =>
-        (inp.calcRes c).tasks ++ (inp.calcRes c).files) ++
+    addNew acc (inp.taskDep t ++ calcsAtF inp tr nTasks (inp.calcDep t) ++
+      ((calcsAtF inp tr nTasks (inp.calcDep t)).flatMap fun c =>
+        (resAt inp tr c).tasks ++ (resAt inp tr c).files) ++
       ((inp.setup t).filter fun d =>
         match firstMentionIdx tr d with
         | some i => runPending inp nTasks (tr.take i) t
@@ -210,6 +211,24 @@ def lazyIter (inp : RunInput) (nTasks : Nat) (tr : List Ev) : Nat → List Name 
 def monLazy (inp : RunInput) (nTasks : Nat) (tr : List Ev) : Bool :=
   (List.range nTasks).all fun d =>
     !(tr.any (Ev.mentions d)) || (lazyIter inp nTasks tr (nTasks + 1) (addNew [] inp.sel)).contains d
+
+/-! hypothesis of `C11_lazy_monitor` (evaluated by the driver on every case) -/
+
+def boundedB (inp : RunInput) (n : Nat) : Bool :=
+  inp.sel.all (· < n) && (List.range n).all fun t =>
+    (inp.taskDep t).all (· < n) && (inp.calcDep t).all (· < n) && (inp.setup t).all (· < n) &&
+    (inp.calcRes t).tasks.all (· < n) && (inp.calcRes t).files.all (· < n) && (inp.calcRes t).calcs.all (· < n) &&
+    (inp.calcResFail t).tasks.all (· < n) && (inp.calcResFail t).files.all (· < n) &&
+    (inp.calcResFail t).calcs.all (· < n) &&
+    (!inp.noAct t || ((inp.calcResFail t).tasks.isEmpty && (inp.calcResFail t).files.isEmpty &&
+      (inp.calcResFail t).calcs.isEmpty))
+
+/-- every task name that occurs in the run input is below `n` (what the harness passes as `nTasks`: the number of
+    tasks), and a task without actions (whose start is not observable) delivers nothing "after a failed execution";
+    decidable -/
+def Bounded (inp : RunInput) (n : Nat) : Prop := boundedB inp n = true
+
+instance (inp : RunInput) (n : Nat) : Decidable (Bounded inp n) := by unfold Bounded; infer_instance
 
 /-- and it completes before the task that requires it starts -/
 def setupBeforeFrom (inp : RunInput) : List Ev → List Ev → Bool
